@@ -168,6 +168,13 @@ impl<T: Send> RendezvousSyncSender<T> {
 
 impl<T: Send> Clone for RendezvousSyncSender<T> {
   fn clone(&self) -> Self {
+    // A handle that was closed no longer counts towards its side; neither does its clone.
+    if self.closed.load(Ordering::Acquire) {
+      return RendezvousSyncSender {
+        shared: Arc::clone(&self.shared),
+        closed: AtomicBool::new(true),
+      };
+    }
     self.shared.add_sender();
     RendezvousSyncSender {
       shared: Arc::clone(&self.shared),
@@ -268,6 +275,13 @@ impl<T: Send> RendezvousSyncReceiver<T> {
 
 impl<T: Send> Clone for RendezvousSyncReceiver<T> {
   fn clone(&self) -> Self {
+    // A handle that was closed no longer counts towards its side; neither does its clone.
+    if self.closed.load(Ordering::Acquire) {
+      return RendezvousSyncReceiver {
+        shared: Arc::clone(&self.shared),
+        closed: AtomicBool::new(true),
+      };
+    }
     self.shared.add_receiver();
     RendezvousSyncReceiver {
       shared: Arc::clone(&self.shared),
@@ -352,6 +366,13 @@ impl<T: Send> RendezvousAsyncSender<T> {
 
 impl<T: Send> Clone for RendezvousAsyncSender<T> {
   fn clone(&self) -> Self {
+    // A handle that was closed no longer counts towards its side; neither does its clone.
+    if self.closed.load(Ordering::Acquire) {
+      return RendezvousAsyncSender {
+        shared: Arc::clone(&self.shared),
+        closed: AtomicBool::new(true),
+      };
+    }
     self.shared.add_sender();
     RendezvousAsyncSender {
       shared: Arc::clone(&self.shared),
@@ -437,6 +458,13 @@ impl<T: Send> RendezvousAsyncReceiver<T> {
 
 impl<T: Send> Clone for RendezvousAsyncReceiver<T> {
   fn clone(&self) -> Self {
+    // A handle that was closed no longer counts towards its side; neither does its clone.
+    if self.closed.load(Ordering::Acquire) {
+      return RendezvousAsyncReceiver {
+        shared: Arc::clone(&self.shared),
+        closed: AtomicBool::new(true),
+      };
+    }
     self.shared.add_receiver();
     RendezvousAsyncReceiver {
       shared: Arc::clone(&self.shared),
